@@ -47,6 +47,62 @@ fn limit_of(cfg: &IterCfg) -> Option<u64> {
     }
 }
 
+/// The limit is set after a recovery, right before the tag the recovery stopped at is read: it must apply to that tag.
+/// Judged only when the recovery did stop at the element under test (its header may be one the scan skips).
+fn exec_late_limit(c: &Case, m: u64, st: &mut Stats) -> Result<ExecOk, Fail> {
+    let n = c.rc.input.len();
+    let cap = c.rc.cfg.capacity.unwrap_or(65536).max(16) as u64;
+    let legit = if c.declared <= m { c.declared } else { 0 };
+    let allowed = 8 * legit.max(cap).max(16) + 4096;
+    crate::spec::install(&c.rc.spec);
+    alloc::arm();
+    let tr = run_reader(&c.rc.spec, &ReaderSetup { input: c.rc.input.clone(), virtual_tail: c.virtual_tail, cfg: &c.rc.cfg, script: &c.rc.script, driver: &c.rc.driver, max_steps: 4 * n + 256, keep_read_log: false });
+    let usage = alloc::disarm();
+    st.add("api_calls", tr.api_calls as u64);
+    st.add("read_calls", tr.read_calls as u64);
+    st.inc("late_limit_runs");
+    let ctx = || format!("limit {} set after try_recover(), capacity {:?}, element {:x} at offset {} declaring {} bytes\n trace: {}", m, c.rc.cfg.capacity, c.target_id, c.target_off, c.declared, tr.short(12));
+    if let Some(p) = tr.panic() {
+        fail!("panic", "{}; {}", p, ctx());
+    }
+    if tr.budget_exceeded || tr.step_cap_hit {
+        fail!("no-termination", "{}", ctx());
+    }
+    let Some(k) = tr.evs.iter().position(|e| matches!(e, Ev::Cfg)) else {
+        st.inc("late_limit_not_reached");
+        return Ok(ExecOk { nontrivial: false });
+    };
+    // where did the recovery stop? The next event tells.
+    let at_target = match tr.evs.get(k + 1) {
+        Some(Ev::Tag(t, o)) => *o == c.target_off && t.id == c.target_id,
+        Some(Ev::Err(ErrV::InvalidTagSize { pos, .. })) => *pos == c.target_off,
+        _ => false,
+    };
+    // (and the first failure must be the junk itself, before anything was read under the old limit)
+    let junk_failed = matches!(tr.evs.first(), Some(Ev::Err(ErrV::InvalidTagId { pos: 0, .. }))) && k == 2;
+    if !at_target || !junk_failed {
+        st.inc("late_limit_recovered_elsewhere");
+        return Ok(ExecOk { nontrivial: false });
+    }
+    st.inc("probe_late_limit_judged");
+    if usage.peak as u64 > allowed {
+        fail!("heap-growth", "peak heap growth {} bytes (largest single request {}) exceeds {}; {}", usage.peak, usage.max_request, allowed, ctx());
+    }
+    if c.declared > m {
+        match &tr.evs[k + 1] {
+            Ev::Tag(t, _) if !t.is_end() => fail!("oversized-element-accepted", "the element above the limit that was set before it was read was emitted: {}; {}", t.short(), ctx()),
+            Ev::Err(ErrV::InvalidTagSize { size, .. }) => {
+                st.inc("probe_late_limit_enforced");
+                if *size as u64 != c.declared {
+                    fail!("size-field", "InvalidTagSize reports size {} for a declared size of {}; {}", size, c.declared, ctx());
+                }
+            }
+            _ => {}
+        }
+    }
+    Ok(ExecOk { nontrivial: true })
+}
+
 impl Check for C17 {
     type Case = Case;
     fn id(&self) -> &'static str {
@@ -221,6 +277,24 @@ impl Check for C17 {
         // after the scripted chunks the source fills whatever buffer it is offered, so that a
         // legitimate multi-megabyte payload does not take millions of calls
         script.rest = 0;
+        // one case in ten sets the limit late: a junk byte in front makes the first call fail, the caller recovers,
+        // only then sets the limit, and goes on. The limit must hold for the very next tag.
+        if rng.chance(1, 10) && !matches!(cfg.max_size, MaxSz::Default) {
+            let firsts: Vec<u8> = spec.elems.iter().map(|e| enc::id_bytes(e.id)[0]).collect();
+            let alphabet: Vec<u8> = (0u8..=255).filter(|b| !firsts.contains(b)).collect();
+            if !alphabet.is_empty() {
+                let junk: Vec<u8> = (0..rng.range(1, 3)).map(|_| *rng.pick(&alphabet)).collect();
+                let mut b2 = junk.clone();
+                b2.extend_from_slice(&bytes);
+                let mut cfg2 = cfg.clone();
+                cfg2.max_size = if rng.chance(1, 2) { MaxSz::Default } else { MaxSz::Limit(1 << 30) };
+                cfg2.decoy = None;
+                cfg2.allow &= !crate::harness::ALLOW_IDS; // the junk must be an error, not a raw tag read under the old limit
+                let rc = ReadCase { spec, input: Arc::new(b2), cfg: cfg2, script, driver: Driver::RecoverThenLimit(m as usize), class: "late-limit" };
+                // (a recovery scan that does not stop at the element walks the rest of the stream: keep the virtual part short)
+                return Case { rc, virtual_tail: virtual_tail.min(2000), target_off: target_off + junk.len(), target_id: tid, declared, legit, long_stream: false };
+            }
+        }
         let rc = ReadCase { spec, input: Arc::new(bytes), cfg, script, driver: Driver::UntilEnd { extra: 0 }, class: "hostile-size" };
         Case { rc, virtual_tail, target_off, target_id: tid, declared, legit, long_stream: false }
     }
@@ -229,6 +303,9 @@ impl Check for C17 {
         if !c.rc.cfg.buffered.is_empty() {
             st.inc("out_of_scope");
             return Ok(ExecOk { nontrivial: false });
+        }
+        if let Driver::RecoverThenLimit(late) = &c.rc.driver {
+            return exec_late_limit(c, *late as u64, st);
         }
         let Some(m) = limit_of(&c.rc.cfg) else {
             st.inc("out_of_scope");
@@ -346,7 +423,7 @@ impl Check for C17 {
     }
 
     fn rule(&self) -> &'static str {
-        "One case = specification + a reachable chain of 0-3 masters (known-size with accurate or hostile sizes, unknown-size, mixed) followed by one element (binary, string, numeric, master, or an id outside the specification) whose declared size is drawn from 0, M-1, M, M+1, 2M, powers of two up to 2^56-2, in any size-field width that holds it; payload really present, short or absent, the remainder existing only virtually in a lazy source; limit M from 0 to 1 MiB and the default 4e9; any tolerance subset; drawn capacity and delivery schedule; and, for 1 run in 60, a long stream of 50-600 in-limit Void elements of varying sizes (memory must be bounded by the largest of them, however many there are). Measured by a counting global allocator armed around the iteration. Checked: peak heap growth and bytes pulled <= 8*max(largest in-limit declared size, capacity, 16)+4 KiB (+offset); an element above the limit is never emitted and the parse errors (InvalidTagSize at its offset unless an earlier check fires); no panic. Non-trivial: declared size > 0. Distinct: FNV-1a fingerprint."
+        "One case = specification + a reachable chain of 0-3 masters (known-size with accurate or hostile sizes, unknown-size, mixed) followed by one element (binary, string, numeric, master, or an id outside the specification) whose declared size is drawn from 0, M-1, M, M+1, 2M, powers of two up to 2^56-2, in any size-field width that holds it; payload really present, short or absent, the remainder existing only virtually in a lazy source; limit M from 0 to 1 MiB and the default 4e9; any tolerance subset; drawn capacity and delivery schedule; and, for 1 run in 60, a long stream of 50-600 in-limit Void elements of varying sizes (memory must be bounded by the largest of them, however many there are). One hostile-size case in ten sets the limit late (junk byte in front, first call fails, try_recover(), only then set_max_allowable_tag_size(M), next()): the limit must apply to the tag the recovery stopped at. Measured by a counting global allocator armed around the iteration. Checked: peak heap growth and bytes pulled <= 8*max(largest in-limit declared size, capacity, 16)+4 KiB (+offset); an element above the limit is never emitted and the parse errors (InvalidTagSize at its offset unless an earlier check fires); no panic. Non-trivial: declared size > 0. Distinct: FNV-1a fingerprint."
     }
     fn assumptions(&self) -> Vec<&'static str> {
         vec![
@@ -356,6 +433,6 @@ impl Check for C17 {
         ]
     }
     fn expected_probes(&self) -> Vec<&'static str> {
-        vec!["declared_above_limit", "declared_within_limit", "declared_bits_49_56", "declared_bits_33_48", "default_limit_runs", "lazy_tail_runs", "probe_invalid_tag_size_reported", "probe_rejected_by_earlier_check", "probe_in_limit_payload_missing", "long_stream_runs"]
+        vec!["declared_above_limit", "declared_within_limit", "declared_bits_49_56", "declared_bits_33_48", "default_limit_runs", "lazy_tail_runs", "probe_invalid_tag_size_reported", "probe_rejected_by_earlier_check", "probe_in_limit_payload_missing", "long_stream_runs", "late_limit_runs", "probe_late_limit_judged", "probe_late_limit_enforced"]
     }
 }
